@@ -52,6 +52,7 @@ RULE += ' Round 10: regular (unjittered) geometries; the all-NaN template may be
 RULE += ' Round 11: params.py as a link into another folder given by a relative path; a raw file cut in the middle of a sample; an ALF samples file with an extra name part.'
 RULE += ' Round 12: a regularised single-precision whitening_mat_inv.npy dated older than every other file.'
 RULE += ' Round 13: a 6-byte header with 1 or 4 trailing bytes; array files in .npy format 2.0 / 3.0.'
+RULE += ' Round 14: NaN / inf in a fully loaded float64 file of more than 8 MiB.'
 EXHAUSTIVE = {'quick': False, 'thorough': False}
 FLOORS = {'quick': {'evaluations': 1500, 'distinct_nontrivial': 800, 'monitors': {'M1.checked': 2000}},
           'thorough': {'evaluations': 20000, 'distinct_nontrivial': 5000, 'monitors': {'M1.checked': 5000}}}
@@ -98,6 +99,12 @@ def run_shard(desc, ctx):
         run_case({'opts': fill(np.random.default_rng(5), {'raw': 'none', 'features': 'none', 'tfeatures': False, 'names': 'ks',
                                                        'attrs': 'none', 'nan': 'none', 'clusters': 'same'}),
                   'seed': [desc['seed'], 4444, sh, 1], 'reject': 'seam', 'ns': [2 ** 20 + 8, 2 ** 16 + 8][sh]}, ctx)
+    if sh == 2 % ns:
+        # size (round 14): a fully loaded float64 file of more than 8 MiB (2**20 + 8 spikes) holding NaN and inf - stored
+        # non-finite values are replaced by zero whatever the size of the file
+        run_case({'opts': fill(np.random.default_rng(6), {'raw': 'none', 'features': 'none', 'tfeatures': False, 'names': 'ks',
+                                                       'attrs': 'none', 'nan': 'amps', 'clusters': 'same', 'dtype_amps': 'float64'}),
+                  'seed': [desc['seed'], 4445, 0, 1], 'reject': None, 'ns': 2 ** 20 + 8}, ctx)
     for i in range(desc['nrand']):
         if i % ns != sh:
             continue
